@@ -539,3 +539,68 @@ func C10_Conv() {
 	}
 	vf.Reach("conv")
 }
+
+// deepClone: a structural clone written in the harness (not tengo's Copy).
+func deepClone(o tengo.Object) tengo.Object {
+	switch x := o.(type) {
+	case *tengo.Array:
+		r := &tengo.Array{}
+		for _, e := range x.Value {
+			r.Value = append(r.Value, deepClone(e))
+		}
+		return r
+	case *tengo.ImmutableArray:
+		r := &tengo.ImmutableArray{}
+		for _, e := range x.Value {
+			r.Value = append(r.Value, deepClone(e))
+		}
+		return r
+	case *tengo.Map:
+		r := &tengo.Map{Value: map[string]tengo.Object{}}
+		for k, e := range x.Value {
+			r.Value[k] = deepClone(e)
+		}
+		return r
+	case *tengo.ImmutableMap:
+		r := &tengo.ImmutableMap{Value: map[string]tengo.Object{}}
+		for k, e := range x.Value {
+			r.Value[k] = deepClone(e)
+		}
+		return r
+	}
+	return o
+}
+
+// C10_CopyNest: copy() of every nesting of up to three container constructors
+// (mutable and shallow-immutable arrays and maps, see nestCtors) around a
+// leaf: the copy equals the original, and overwriting every mutable container
+// reachable from the copy leaves the original as it was (no mutable state is
+// shared at any depth), and vice versa.
+func C10_CopyNest() {
+	depth := 1 + vf.Choice("depth", 3)
+	expr := "a"
+	for k := 0; k < depth; k++ {
+		expr = substAt(nestCtors[vf.Choice("ctor"+string(rune('0'+k)), len(nestCtors))], expr)
+	}
+	s := tengo.NewScript([]byte("o := " + expr + "\ncp := copy(o)\neq := cp == o\n"))
+	a, b := vf.Int64("a"), vf.Int64("b")
+	_ = s.Add("a", a)
+	_ = s.Add("b", b)
+	cc, err := s.Compile()
+	vf.Assert(err == nil, "copy script compiles: "+expr)
+	rerr, panicked, _ := RunGuarded(cc)
+	vf.Assert(rerr == nil && !panicked, "copy script runs: "+expr)
+	vf.Assert(cc.Get("eq").Bool(), "copy(o) == o: "+expr)
+	o, cp := cc.Get("o").Object(), cc.Get("cp").Object()
+	vf.Assert(sameLoose(o, cp), "copy(o) has the structure and values of o: "+expr)
+	snapO := deepClone(o)
+	if vf.Choice("write-through", 2) == 0 {
+		scribble(cp, 0)
+		vf.Assert(sameLoose(o, snapO), "writes through the copy do not reach the original: "+expr)
+	} else {
+		snapCp := deepClone(cp)
+		scribble(o, 0)
+		vf.Assert(sameLoose(cp, snapCp), "writes through the original do not reach the copy: "+expr)
+	}
+	vf.Reach("copynest")
+}
